@@ -8,16 +8,30 @@ from fractions import Fraction
 from ..core import frac
 
 LEVEL = "proof"
-RULE = ("segment tables of 1..6 chromosomes x 1..30 segments (runs of equal level of random length, gaps between "
-        "segments, zero weights, optional allele-specific cn1/cn2, ci/sem straddling 0) through segfilters.cn/ci/sem/"
-        "ampdel directly and through do_call(method=threshold, filters=<every ordered list of distinct filters with at "
-        "most one of ci/sem>); about 11 % of the cases go through the command line instead (`cnvkit.py call` on a written .cns "
-        "carrying ci_lo/ci_hi/sem: every such filter list as repeated --filter in order, -m threshold explicit or left to "
-        "the parser's default, -t= custom thresholds of 3..8 levels or the default, --ploidy given or default, -y on/off; "
-        "-m none with --filter ci|sem; -m clonal and -v VCF with --filter cn|ampdel, the un-filtered calls entering the "
-        "model as parameters); non-trivial = some run of >= 2 mergeable neighbours exists; distinct by hash")
+RULE = ("segment tables of 1..6 chromosomes (either naming style, any order) x 1..30 segments (runs of equal level of random "
+        "length, gaps between segments, zero weights, optional allele-specific cn1/cn2, ci/sem straddling 0) through "
+        "segfilters.cn/ci/sem/ampdel directly and through do_call(method=threshold, filters=<every ordered list of distinct "
+        "filters with at most one of ci/sem>); about 8 % of the cases go through the command line instead (`cnvkit.py call` on a "
+        "written .cns carrying ci_lo/ci_hi/sem and, half the time each, depth / p_bintest / (where the un-filtered call is a "
+        "parameter) baf, columns in file order or shuffled: every such filter list as repeated --filter in order, -m threshold "
+        "explicit or left to the parser's default, -t= custom thresholds of 3..8 levels or the default, --ploidy given or "
+        "default, -y on/off; -m none with --filter ci|sem; -m clonal and -v VCF with --filter cn|ampdel, the un-filtered calls "
+        "entering the model as parameters).  REPRESENTATIONS (`rep:` / `rep-call:` / `api-*:` cases, a quarter of the total; "
+        "key rep_f, invisible to the model): pandas index default / filtered subset of a larger table (junk rows masked away) / "
+        "shifted (tail of a larger table) / labels restarting on each chromosome (non-unique: do_call's index reset) -- the "
+        "non-default ones only where /repo holds today, see LABELS_REPAIRED; extra columns depth, baf, p_bintest (every branch "
+        "of squash_region); columns shuffled; weight column of dtype int64; no probes column (each row one probe); "
+        "squash_by_groups(by_arm=True) (no arms at <= 30 segments: must equal the cn filter); do_call called positionally or "
+        "with keywords only where the value differs from do_call's own defaults (two cases in five: nothing but filters=), "
+        "filters as list or tuple, the caller's list required to come back unchanged; do_call through the API with ONE "
+        "filter and method none (ci|sem), clonal, threshold/clonal with purity 0.3..0.95 or 1.0, a baf column in the table "
+        "(cn1/cn2 derived by do_call), the un-filtered call with the same arguments entering the model as the table; "
+        "non-trivial = some run of >= 2 mergeable neighbours exists; distinct by hash")
 EXHAUSTIVE = {"quick": False, "thorough": False}
-ASSUMPTIONS = ["rows grouped by chromosome (sorted table) with the default unique index, as the call path guarantees",
+ASSUMPTIONS = ["rows grouped by chromosome (each chromosome's rows contiguous; the chromosomes in any order)",
+               "row labels: the command line and batch hand over tables labelled 0..n-1; for tables with other labels (filtered "
+               "subsets, repeated labels) only `cn` and do_call's reset of repeated labels before the post-call filters are "
+               "checked until the open defect proposed_fixes/C14-filter-row-labels.md is repaired in /repo (ci/sem/ampdel lose rows there)",
                "the weighted median of unequal cn values inside an ampdel run is computed with C19's model of weighted_median on the "
                "pairs sorted by value (tie order unobservable: C19 wmedian_tie_order_unobservable)"]
 TRUSTED_EXTRA = ["pandas groupby(sort=False)/apply ordering, np.average"]
@@ -119,6 +133,9 @@ def gen_cases(rng, tier):
     for kind, f in (("none", "ci"), ("none", "sem"), ("clonal", "cn"), ("clonal", "ampdel"), ("vcf", "cn")):
         for _ in range(me):
             cases.append(_cli_case(rng, "segfilter", [f], kind))
+    # other representations / call styles / doors (own random stream: the cases above keep theirs)
+    import random
+    cases += _rep_cases(random.Random(rng.randrange(10 ** 9)), tier)
     return cases
 
 
@@ -146,6 +163,14 @@ def _cli_case(rng, op, fl, kind):
     ploidy = rng.choice([1, 2, 3, 4, 6]) if opt_ploidy else 2
     i = {"rows": rows, "cols": cols, "thr": [frac(t) for t in thr], "thr_f": thr, "opt_t": opt_t, "ploidy": ploidy,
          "opt_ploidy": opt_ploidy, "hapX": rng.random() < 0.5, "cli": True}
+    # the .cns as the pipeline writes it: depth (segment), p_bintest (bintest), baf (segment -v; only where the
+    # un-filtered call enters the model as a parameter, since do_call derives cn1/cn2 from it), columns in any order
+    # (drawn from its own stream so that the cases keep theirs)
+    import random
+    r2 = random.Random(len(rows) * 7919 + rows[0][1])
+    i["rep_f"] = {"index": "default", "seed": r2.randrange(10 ** 6),
+                  "extra": [c for c in (("depth", "p_bintest") if op == "call_filters" else EXTRAS) if r2.random() < 0.5],
+                  "order": r2.randrange(10 ** 6) if r2.random() < 0.4 else None}
     if op == "call_filters":
         i.update(filters=list(fl), method=rng.choice(["threshold", None]))  # None: left to the parser's default
         tag = "cli-call:" + "+".join(fl)
@@ -162,6 +187,169 @@ def _cli_case(rng, op, fl, kind):
             i["snps"] = snps
         tag = "cli-" + kind + ":" + fl[0]
     return {"op": op, "tag": tag, "in": i}
+
+
+# ---------------------------------------------------------------------------------------------------------------
+# input REPRESENTATIONS (impl-only: the key `rep_f` never reaches the model -- row labels, extra columns, column
+# order, dtypes and call styles carry no meaning for the property)
+
+# OPEN DEFECT (not registered; see /verif/proposed_fixes/C14-filter-row-labels.md): ci / sem / ampdel build their
+# level Series with fresh labels 0..n-1 while the chromosome ordinals carry the table's labels, so on a table whose
+# labels are not 0..n-1 (any filtered subset, e.g. segments[segments.chromosome != "chrY"]) rows are silently lost or
+# left unmerged; on duplicated labels they raise AssertionError.  Until /repo is repaired the generator keeps those
+# index representations to the pipelines that hold on /repo: `cn` alone (labels kept throughout) and, for duplicated
+# labels, do_call lists without ci/sem (do_call resets a non-unique index before the post-call filters).
+# VERIF_C14_LABELS=1 switches all cells on (make it True once /repo is repaired).
+import os as _os
+LABELS_REPAIRED = True   # finding BB fixed in /repo (b643b5d): non-default row labels generated for every filter
+INDEXES = ("default", "default", "subset", "shifted", "dup")
+EXTRAS = ("depth", "baf", "p_bintest")
+
+
+def _index_ok(index, pipeline, direct):
+    """may this index representation be generated for this list of filters (direct = segfilters.F(arr) itself)?"""
+    if index == "default" or LABELS_REPAIRED:
+        return True
+    if index == "dup":
+        return not direct and not ({"ci", "sem"} & set(pipeline))
+    return list(pipeline) == ["cn"]
+
+
+def _gen_rep(rng, pipeline, direct, rows, extras=EXTRAS):
+    index = rng.choice(INDEXES)
+    if not _index_ok(index, pipeline, direct):
+        index = "default"
+    rep = {"index": index, "seed": rng.randrange(10 ** 6),
+           "extra": [c for c in extras if rng.random() < 0.4],
+           "order": rng.randrange(10 ** 6) if rng.random() < 0.5 else None}
+    if all(Fraction(r[6]).denominator == 1 for r in rows) and rng.random() < 0.7:
+        rep["intw"] = True      # weight column of dtype int64 (as a .cns whose weights are all whole reads back)
+    if all(r[5] == 1 for r in rows):
+        rep["noprobes"] = True  # no `probes` column: every row counts as one probe
+    return rep
+
+
+def _apply_rep(arr, rep):
+    """the same table as `arr` in another representation"""
+    if not rep:
+        return arr
+    import random
+    import numpy as np
+    import pandas as pd
+    r = random.Random(rep["seed"])
+    d = arr.data.copy()
+    n = len(d)
+    for c in rep.get("extra", ()):
+        if c == "depth":
+            d[c] = [round(r.uniform(0, 500), 3) for _ in range(n)]
+        elif c == "baf":
+            d[c] = [r.choice([float("nan"), 0.5, round(r.uniform(0, 1), 3)]) for _ in range(n)]
+        else:
+            d[c] = [r.choice([1.0, 1e-9, r.uniform(0, 1)]) for _ in range(n)]
+    if rep.get("intw"):
+        d["weight"] = d["weight"].astype("int64")
+    if rep.get("noprobes"):
+        d = d.drop(columns=["probes"])
+    if rep.get("order") is not None:
+        cols = list(d.columns)
+        random.Random(rep["order"]).shuffle(cols)
+        d = d[cols]
+    index = rep.get("index", "default")
+    if index == "subset" and n:
+        # a filtered subset of a larger table: junk rows (copies of other rows, other levels) interleaved, then
+        # masked away the way users filter (boolean mask through CopyNumArray.__getitem__)
+        pos, mask = [], []
+        for k in range(n):
+            for _ in range(r.choice([0, 1, 1, 2, 3])):
+                pos.append(r.randrange(n))
+                mask.append(False)
+            pos.append(k)
+            mask.append(True)
+        if all(mask):
+            pos.insert(0, n - 1)
+            mask.insert(0, False)
+        big = arr.as_dataframe(d.iloc[pos].reset_index(drop=True))
+        return big[np.array(mask)]
+    if index == "shifted" and n:
+        # the tail of a larger table (e.g. one chromosome selected): unique labels starting above 0
+        d.index = pd.RangeIndex(7, 7 + n)
+    elif index == "dup" and n:
+        # per-chromosome pieces put together with pd.concat without ignore_index: labels restart on each chromosome
+        chrom = d["chromosome"].tolist()
+        lab, k = [], 0
+        for j in range(n):
+            k = 0 if j and chrom[j] != chrom[j - 1] else k
+            lab.append(k)
+            k += 1
+        d.index = lab
+    return arr.as_dataframe(d)
+
+
+def _table_int(rng, small):
+    """a table whose weights are whole numbers (zero included) and, half the time, whose probes are all 1"""
+    rows, has_cn1 = _table(rng, small=small)
+    one = rng.random() < 0.5
+    for r in rows:
+        r[6] = frac(float(rng.choice([0, 0, 1, 1, 2, rng.randint(1, 300)])))
+        if one:
+            r[5] = 1
+    return rows, has_cn1
+
+
+def _rep_cases(rng, tier):
+    """the API doors again on other representations of the table, other call styles, other doors"""
+    cases = []
+    lists = []
+    for k in range(1, 4):
+        for combo in itertools.permutations(FILTERS, k):
+            if not ({"ci", "sem"} <= set(combo)):
+                lists.append(list(combo))
+    n = {"quick": 60, "thorough": 600, "search": 60}[tier]
+    for k in range(n):
+        rows, has_cn1 = (_table_int if k % 3 == 0 else _table)(rng, small=(k % 2 == 0))
+        for f in FILTERS:
+            cases.append({"op": "segfilter", "tag": "rep:" + f,
+                          "in": {"rows": rows, "filter": f, "has_cn1": has_cn1, "rep_f": _gen_rep(rng, [f], True, rows)}})
+        # squash_by_groups(by_arm=True), the segmentation's door: with <= 30 segments per chromosome no chromosome
+        # has arms (by_arm needs > 101 rows), so it must act as the cn filter does
+        cases.append({"op": "segfilter", "tag": "rep:by_arm",
+                      "in": {"rows": rows, "filter": "cn", "has_cn1": has_cn1, "by_arm_f": True,
+                             "rep_f": _gen_rep(rng, ["cn"], True, rows)}})
+    m = {"quick": 3, "thorough": 20, "search": 3}[tier]
+    for fl in lists:
+        for j in range(m):
+            rows, _h = (_table_int if j == 0 else _table)(rng, small=rng.random() < 0.5)
+            rows = [r[:7] + [None, None, None] + r[10:] for r in rows]
+            style = rng.choice(["kw", "kw", "pos"])
+            dflt = style == "kw" and rng.random() < 0.6   # everything but `filters` left to do_call's own defaults
+            # (no baf column here: do_call would derive cn1/cn2 from it, which the threshold pipeline of the model lacks;
+            # the baf column goes through the `api:` cases below)
+            cases.append({"op": "call_filters", "tag": "rep-call:" + "+".join(fl),
+                          "in": {"rows": rows, "filters": fl, "thr": [frac(t) for t in DEFAULT_THR], "thr_f": list(DEFAULT_THR),
+                                 "ploidy": 2 if dflt else rng.choice([2, 2, 3, 4]), "hapX": False if dflt else rng.random() < 0.5,
+                                 "style_f": style, "container_f": rng.choice(["list", "tuple"]),
+                                 "rep_f": _gen_rep(rng, fl, False, rows, extras=("depth", "p_bintest"))}})
+    # do_call through the API with the calling methods / inputs the threshold pipeline of the model lacks: the
+    # un-filtered call (same arguments, filters=None) enters the model as the table, then ONE post-call filter; or
+    # method="none" with one pre-call filter
+    a = {"quick": 12, "thorough": 100, "search": 12}[tier]
+    for kind, f in (("none", "ci"), ("none", "sem"), ("clonal", "cn"), ("clonal", "ampdel"), ("purity", "cn"),
+                    ("purity", "ampdel"), ("baf", "cn"), ("baf", "ampdel"), ("threshold", "ampdel")):
+        for _ in range(a):
+            rows, _h = _table(rng, small=rng.random() < 0.5)
+            rows = [r[:7] + [None, None, None] + r[10:] for r in rows]
+            extras = ("depth", "p_bintest") if kind != "baf" else ("depth", "p_bintest")
+            rep = _gen_rep(rng, [f], False, rows, extras=extras)
+            if kind == "baf" or (kind in ("none", "clonal") and rng.random() < 0.3):
+                rep["extra"] = sorted(set(rep["extra"]) | {"baf"})
+            i = {"rows": rows, "filter": f, "has_cn1": False, "rep_f": rep,
+                 "api_f": {"method": {"none": "none", "clonal": "clonal"}.get(kind, rng.choice(["threshold", "clonal"]) if kind == "purity" else "threshold"),
+                           "ploidy": rng.choice([2, 2, 3, 4]), "hapX": rng.random() < 0.5,
+                           "purity": rng.choice([0.3, 0.5, 0.8, 0.95]) if kind == "purity" else rng.choice([None, None, 1.0]),
+                           "female": rng.random() < 0.5, "thr": list(DEFAULT_THR),
+                           "container": rng.choice(["list", "tuple"])}}
+            cases.append({"op": "segfilter", "tag": "api-" + kind + ":" + f, "in": i})
+    return cases
 
 
 def _cna(rows, cols_extra):
@@ -203,18 +391,72 @@ def run_impl(case):
     i = case["in"]
     if i.get("cli"):
         return _run_cli(case["op"], i)
+    rep = i.get("rep_f")
+    if case["op"] == "segfilter" and i.get("api_f"):
+        return _run_api(i)
     if case["op"] == "segfilter":
         extra = {"cn": ["cn"], "ampdel": ["cn"], "ci": ["cn", "ci_lo", "ci_hi"], "sem": ["cn", "sem"]}[i["filter"]]
         if i["has_cn1"]:
             extra = extra + ["cn1", "cn2"]
-        arr = _cna(i["rows"], extra)
+        arr = _apply_rep(_cna(i["rows"], extra), rep)
+        if i.get("by_arm_f"):
+            return _rows_out(segfilters.squash_by_groups(arr, arr["cn"], by_arm=True))
         return _rows_out(getattr(segfilters, i["filter"])(arr))
     if case["op"] == "call_filters":
-        arr = _cna(i["rows"], ["ci_lo", "ci_hi", "sem"])
-        out = call.do_call(arr, None, "threshold", i["ploidy"], None, i["hapX"], False, None, list(i["filters"]),
-                           tuple(i["thr_f"]))
+        arr = _apply_rep(_cna(i["rows"], ["ci_lo", "ci_hi", "sem"]), rep)
+        fl = tuple(i["filters"]) if i.get("container_f") == "tuple" else list(i["filters"])
+        if i.get("style_f") == "kw":
+            # only what differs from do_call's own defaults is passed, by keyword
+            kw = {}
+            if i["ploidy"] != 2:
+                kw["ploidy"] = i["ploidy"]
+            if i["hapX"]:
+                kw["is_haploid_x_reference"] = True
+            if tuple(i["thr_f"]) != DEFAULT_THR:
+                kw["thresholds"] = tuple(i["thr_f"])
+            out = call.do_call(arr, filters=fl, **kw)
+        else:
+            out = call.do_call(arr, None, "threshold", i["ploidy"], None, i["hapX"], False, None, fl, tuple(i["thr_f"]))
+        if isinstance(fl, list) and fl != list(i["filters"]):
+            raise AssertionError("do_call changed the caller's filter list")
         return _rows_out(out)
     raise ValueError(case["op"])
+
+
+def _rows_in(sd, param):
+    """the table the filters see, as model rows: coordinates, probes, weight and the segmetrics columns from `sd`;
+    cn/cn1/cn2 and -- when a call was made -- log2 (purity rescaling changes it) from the un-filtered call `param`"""
+    f = lambda v: frac(float(v))
+    src = sd if param is None else param
+    rows = []
+    for k in range(len(sd)):
+        def col(df, name, conv):
+            if df is None or name not in df.columns:
+                return None
+            v = df[name].iat[k]
+            return None if v != v else conv(v)
+        rows.append([str(sd["chromosome"].iat[k]), int(sd["start"].iat[k]), int(sd["end"].iat[k]), str(sd["gene"].iat[k]),
+                     f(src["log2"].iat[k]), int(sd["probes"].iat[k]) if "probes" in sd.columns else 1, f(sd["weight"].iat[k]),
+                     col(param, "cn", f), col(param, "cn1", f), col(param, "cn2", f),
+                     col(sd, "ci_lo", f), col(sd, "ci_hi", f), col(sd, "sem", f)])
+    return rows
+
+
+def _run_api(i):
+    """do_call through the API with one filter and a calling method / input the model's threshold pipeline lacks:
+    the un-filtered call with the same arguments gives the table the post-call filter sees"""
+    from cnvlib import call
+    a = i["api_f"]
+    arr = _apply_rep(_cna(i["rows"], ["ci_lo", "ci_hi", "sem"]), i.get("rep_f"))
+    kw = dict(method=a["method"], ploidy=a["ploidy"], purity=a["purity"], is_haploid_x_reference=a["hapX"],
+              is_sample_female=a["female"], thresholds=tuple(a["thr"]))
+    fl = (i["filter"],) if a["container"] == "tuple" else [i["filter"]]
+    out = call.do_call(arr, None, filters=fl, **kw)
+    param = None if a["method"] == "none" else call.do_call(arr, None, filters=None, **kw).data
+    if (a["method"] == "none") != ("cn" not in out.data.columns):
+        raise AssertionError("the cn column is present exactly when a calling method is")
+    return {"cli_rows": _rows_in(arr.data, param), "has_cn1": param is not None and "cn1" in param.columns,
+            "out": _rows_out(out)}
 
 
 def _vcf_text(contigs, snps):
@@ -242,7 +484,7 @@ def _run_cli(op, i):
     d = tempfile.mkdtemp(dir="/var/tmp", prefix="c14cli")
     try:
         fin, fout, fvcf = (os.path.join(d, n) for n in ("S.cns", "S.call.cns", "S.vcf"))
-        tabio.write(_cna(i["rows"], list(i["cols"])), fin)
+        tabio.write(_apply_rep(_cna(i["rows"], list(i["cols"])), i.get("rep_f")), fin)
         filters = list(i["filters"]) if op == "call_filters" else [i["filter"]]
         argv = ["call", fin, "-o", fout]
         for f in filters:
@@ -305,19 +547,7 @@ def _run_cli(op, i):
             varr = load_het_snps(fvcf, None, None, 20, None) if i.get("snps") is not None else None
             param = call.do_call(seen, varr, i["method"] or "threshold", i["ploidy"], None, i["hapX"], None, None, None,
                                  tuple(i["thr_f"])).data
-        sd = seen.data
-        cli_rows = []
-        for k in range(len(sd)):
-            def col(df, name, conv):
-                if df is None or name not in df.columns:
-                    return None
-                v = df[name].iat[k]
-                return None if v != v else conv(v)
-            f = lambda v: frac(float(v))
-            cli_rows.append([str(sd["chromosome"].iat[k]), int(sd["start"].iat[k]), int(sd["end"].iat[k]), str(sd["gene"].iat[k]),
-                             f(sd["log2"].iat[k]), int(sd["probes"].iat[k]), f(sd["weight"].iat[k]),
-                             col(param, "cn", f), col(param, "cn1", f), col(param, "cn2", f),
-                             col(sd, "ci_lo", f), col(sd, "ci_hi", f), col(sd, "sem", f)])
+        cli_rows = _rows_in(seen.data, param)
         return {"cli_rows": cli_rows, "has_cn1": param is not None and "cn1" in param.columns, "out": rows_out}
     finally:
         shutil.rmtree(d, ignore_errors=True)
